@@ -233,6 +233,12 @@ def cli_case(draw):
             sources.append({"kind": "file", "opt": opt, "anchor": anchor,
                             "records": [text() for _ in range(draw(st.integers(1, 2)))],
                             "params": params})
+    if family and draw(st.booleans()):
+        # ... plus one anchored adapter for the other end, which is not part of any index
+        other = {"prefix": "suffix", "suffix": "prefix"}[family]
+        sources.insert(draw(st.integers(0, len(sources))),
+                       {"kind": "direct", "opt": {"prefix": "-g", "suffix": "-a"}[other], "type": other,
+                        "seq": draw(st.text(alphabet="ACGT", min_size=5, max_size=14)), "params": {}})
     sc = {"sub": "cli", "glob": glob, "sources": sources, "reads": []}
     specs = effective_specs(sc)
     for _ in range(draw(st.integers(1, 5))):
